@@ -129,7 +129,9 @@ def _err_sig(msg, toks, parser):
         return what
     m = re.match(r"^[^:]*:(\d+):(\d+): ", msg)
     if m:
-        idx = int(m.group(2)) - 1  # concrete coordinates: column = token index + 1
+        # concrete coordinates: column = template position + 1 (positions holding EPS, "no token", included)
+        idx = sum(1 for t in toks[: int(m.group(2)) - 1] if t[0] != "EPS")
+    toks = [t for t in toks if t[0] != "EPS"]  # the parser's cursor counts real tokens only
     cur = toks[idx][0] if 0 <= idx < len(toks) else "EOF"
     prev = toks[idx - 1][0] if 0 < idx <= len(toks) else "^"
     return f"{what}:{prev},{cur}"
